@@ -616,7 +616,8 @@ def main(tier):
     c13_kinds.s4(prog, chk)
     # S5: conditioning loops skip an undefined datum, they do not stop at it (shared rule with C05d, simulation sources only)
     import c05_skip
-    c05_skip.rule_d(prog, chk, 1, rule="S5", only_files=("src/Simulation/", "src/Core/simtub", "src/Gibbs/", "src/LithoRule/"))
+    c05_skip.rule_d(prog, chk, 0, rule="S5", only_files=("src/Simulation/", "src/Core/simtub", "src/Gibbs/", "src/LithoRule/"))
+    c05_skip.positive_control(chk, "S5", tier)
     for k in sorted(an.assumed):
         chk.assumptions.append("draw %s in %s treated as seeded: %s" % (k[1], k[0], ASSUMED_SEEDED[k]))
     return chk.finish()
